@@ -493,6 +493,52 @@ theorem skipCRLF_tie (b : Buf) (i : Nat) :
       rw [e0]
       simp [hd, errU32, Err.toNat]
 
+/-! ### the capacity accessors `VNo / PNo / HNo / More` (the caller's array enters as its length) -/
+
+private theorem gt_nat (a b : Nat) : decide ((Int.ofNat a : Int) > Int.ofNat b) = decide (a > b) := by
+  apply decide_eq_decide.mpr
+  constructor <;> intro h
+  · have h' : (a : Int) > (b : Int) := h
+    omega
+  · show (a : Int) > (b : Int)
+    omega
+
+-- TIE: PContacts.VNo
+theorem contactsVNo_tie (c : PContacts) : Gen.F.PContacts_VNo (Int.ofNat c.n) c.vals.size = Int.ofNat c.vNo := by
+  unfold Gen.F.PContacts_VNo PContacts.vNo
+  rw [gt_nat]
+  by_cases h : c.n > c.vals.size <;> simp [h]
+-- TIE: PContacts.More
+theorem contactsMore_tie (c : PContacts) : Gen.F.PContacts_More (Int.ofNat c.n) c.vals.size = c.more := by
+  unfold Gen.F.PContacts_More PContacts.more; rw [gt_nat]
+-- TIE: PPAIs.VNo
+theorem paisVNo_tie (c : PPAIs) (h2 : c.vals.size = 2) : Gen.F.PPAIs_VNo (Int.ofNat c.n) = Int.ofNat c.vNo := by
+  unfold Gen.F.PPAIs_VNo PPAIs.vNo
+  have e : ((2 : Int)) = Int.ofNat 2 := rfl
+  rw [e, gt_nat, h2]
+  by_cases h : c.n > 2 <;> simp [h]
+-- TIE: PPAIs.More
+theorem paisMore_tie (c : PPAIs) (h2 : c.vals.size = 2) : Gen.F.PPAIs_More (Int.ofNat c.n) = c.more := by
+  unfold Gen.F.PPAIs_More PPAIs.more
+  have e : ((2 : Int)) = Int.ofNat 2 := rfl
+  rw [e, gt_nat, h2]
+-- TIE: URIParamsLst.PNo
+theorem uriParamsPNo_tie (l : URIParamsLst) : Gen.F.URIParamsLst_PNo (Int.ofNat l.n) l.params.size = Int.ofNat l.pNo := by
+  unfold Gen.F.URIParamsLst_PNo URIParamsLst.pNo
+  rw [gt_nat]
+  by_cases h : l.n > l.params.size <;> simp [h]
+-- TIE: URIParamsLst.More
+theorem uriParamsMore_tie (l : URIParamsLst) : Gen.F.URIParamsLst_More (Int.ofNat l.n) l.params.size = l.more := by
+  unfold Gen.F.URIParamsLst_More URIParamsLst.more; rw [gt_nat]
+-- TIE: URIHdrsLst.HNo
+theorem uriHdrsHNo_tie (l : URIHdrsLst) : Gen.F.URIHdrsLst_HNo (Int.ofNat l.n) l.hdrs.size = Int.ofNat l.hNo := by
+  unfold Gen.F.URIHdrsLst_HNo URIHdrsLst.hNo
+  rw [gt_nat]
+  by_cases h : l.n > l.hdrs.size <;> simp [h]
+-- TIE: URIHdrsLst.More
+theorem uriHdrsMore_tie (l : URIHdrsLst) : Gen.F.URIHdrsLst_More (Int.ofNat l.n) l.hdrs.size = l.more := by
+  unfold Gen.F.URIHdrsLst_More URIHdrsLst.more; rw [gt_nat]
+
 /-! ### scanning loops: `skipWS`, `skipToken`, `skipTokenDelim`, `skipLine` -/
 
 private theorem succ_nat (i : Nat) : (Int.ofNat i + 1 : Int) = Int.ofNat (i + 1) := by simp
